@@ -15,6 +15,9 @@ import (
 // generic JSON tree of openapi3.json. It shares no code with goa.
 type oaDoc struct {
 	root map[string]any
+	// undecided counts the documented string formats met since the last reset that the lab cannot decide for
+	// the value at hand (neither in the valid nor in the invalid pool of that format)
+	undecided int
 }
 
 func loadOADoc(raw []byte) (*oaDoc, error) {
@@ -177,6 +180,8 @@ func (d *oaDoc) eval(schema any, v any, path string, errs *[]string, depth int) 
 		if f, ok := s["format"].(string); ok && f != "" && f != "binary" && f != "byte" {
 			if valid, decided := formatVerdict(f, str); decided && !valid {
 				add("format", "%q is not a %s", str, f)
+			} else if !decided {
+				d.undecided++
 			}
 		}
 	case "integer", "number":
